@@ -176,10 +176,10 @@ theorem walk_prunes_gate (p : PortT) (i : Nat) (b : Buf) (base : List PortT) (pa
     (obj : Obj) (oldEnd : Nat) (relAddr : Bytes) (hrel : cstrAt b oldEnd = .ok relAddr) :
     (obj.kid relAddr = some none → recurseGate p i b base path (some obj) oldEnd = .ok (none, [])) ∧
     (∀ child cs, obj.kid relAddr = some (some child) →
-        portIsEnabled (some (i, p)) b base path (some obj) true = .ok (false, cs) →
+        portIsEnabled (some (i, p)) b base path (some obj) true (some child) = .ok (false, cs) →
         recurseGate p i b base path (some obj) oldEnd = .ok (none, cs)) ∧
     (∀ child cs, obj.kid relAddr = some (some child) →
-        portIsEnabled (some (i, p)) b base path (some obj) true = .ok (true, cs) →
+        portIsEnabled (some (i, p)) b base path (some obj) true (some child) = .ok (true, cs) →
         recurseGate p i b base path (some obj) oldEnd = .ok (some (some child), cs)) := by
   refine ⟨?_, ?_, ?_⟩
   · intro h; simp [recurseGate, hrel, h]
@@ -188,16 +188,17 @@ theorem walk_prunes_gate (p : PortT) (i : Nat) (b : Buf) (base : List PortT) (pa
 
 /-- **walk_prunes_toggle**: the "enabled by" test of a port whose metadata names a toggle of
     the same table (`ask`, row `k`; not a sub-port of the port itself) answers what that toggle
-    answers on the runtime object; the only call it makes is for a disabling toggle of the
-    table's own `self:` port (`rel = false`), reported under the collapsed address. -/
+    answers on the table's runtime object; the only call it makes is for a disabling toggle of
+    the table's own `self:` port (`rel = false`), reported under the collapsed address. -/
 theorem walk_prunes_toggle (i : Nat) (p : PortT) (b : Buf) (base : List PortT) (path : List Nat)
-    (obj : Obj) (rel : Bool) (mptr : Meta.Ptr) (ep loc collapsed : Bytes) (off k : Nat) (ask : PortT) (v : Bool)
+    (obj : Obj) (rel : Bool) (portRt : Option Obj) (mptr : Meta.Ptr) (ep loc collapsed : Bytes) (off k : Nat)
+    (ask : PortT) (v : Bool)
     (hm : Meta.portMeta p.metadata = some mptr) (hl : Meta.lookup mptr ENABLED_BY = some (some ep))
     (hsub : (subportScan p.name ep).1 = false) (hk : index base ep = some k) (hask : base[k]? = some ask)
     (hloc : cstrAt b 0 = .ok loc)
     (hcol : collapseStr (loc ++ (if rel then DOTDOTSLASH else []) ++ ep ++ [0]) = some (off, collapsed))
     (hv : obj.toggle (lit ask.name) = some v) :
-    portIsEnabled (some (i, p)) b base path (some obj) rel =
+    portIsEnabled (some (i, p)) b base path (some obj) rel portRt =
       .ok (v, if !v && !rel then [(path ++ [k], collapsed)] else []) := by
   have hs : subportScan p.name ep = (false, (subportScan p.name ep).2) := by
     rw [← hsub]
@@ -205,6 +206,25 @@ theorem walk_prunes_toggle (i : Nat) (p : PortT) (b : Buf) (base : List PortT) (
   rw [hs]
   simp only [Bool.false_eq_true, ↓reduceIte, hk, hask, hloc, hcol, hv, Bool.false_or]
   cases v <;> cases rel <;> simp
+
+/-- **walk_prunes_subport_toggle**: when the metadata of a sub-tree port names a toggle *inside*
+    the sub-tree (`name/toggle`; `ask` is row `k` of the sub-table), the toggle is asked on the
+    sub-tree's own object `child` — the unrepaired code asked the parent's object
+    (fixes/C09-enabled-subport-runtime.patch) —, and a toggle that answers false is itself
+    still reported. -/
+theorem walk_prunes_subport_toggle (i : Nat) (p : PortT) (b : Buf) (base : List PortT) (path : List Nat)
+    (obj child : Obj) (mptr : Meta.Ptr) (ep e loc collapsed : Bytes) (off j k : Nat) (q ask : PortT) (v : Bool)
+    (hm : Meta.portMeta p.metadata = some mptr) (hl : Meta.lookup mptr ENABLED_BY = some (some ep))
+    (hsub : subportScan p.name ep = (true, e)) (hj : index base p.name = some j) (hq : base[j]? = some q)
+    (hqp : q.hasPorts = true) (hk : index q.children (e.drop 1) = some k) (hask : q.children[k]? = some ask)
+    (hloc : cstrAt b 0 = .ok loc)
+    (hcol : collapseStr (loc ++ DOTDOTSLASH ++ ep ++ [0]) = some (off, collapsed))
+    (hv : child.toggle (lit ask.name) = some v) :
+    portIsEnabled (some (i, p)) b base path (some obj) true (some child) =
+      .ok (v, if !v then [(path ++ [j] ++ [k], collapsed)] else []) := by
+  simp only [portIsEnabled, hm, hl, hsub, ↓reduceIte, hj, hq, hqp, hk, hask, hloc, hcol, Option.getD_some, hv,
+    Bool.true_or]
+  cases v <;> simp
 
 /-! ## Remarks outside the statement (recorded, not alarms) -/
 
